@@ -48,7 +48,7 @@ def make_cmds(rnd, kind, S, params, tier):
     return cmds, names, {}
 
 
-CFG = DC.Config("C16", D.ALL_KINDS, make_cmds, nsets=(6, 40), params_fn=params_fn, serial=True,
+CFG = DC.Config("C16", D.ALL_KINDS, make_cmds, nsets=(6, 18), params_fn=params_fn, serial=True,
                 rule="every kind: each operation it does not provide (prefix/substring/rank on hash kinds, substring on front-coding kinds, RPDAC "
                      "and an FM-index built without sampling, table scan on XBW) must return a null iterator / NULL / 0 and every supported query must "
                      "still answer as before; the generic loader on the image with its tag replaced by 20+ unknown 32-bit tags (neighbours of every "
